@@ -15,17 +15,45 @@ RULE = ("random edit sequences (length <= 40) over {add_atom with/without charge
         "isornitrate, pdb_4a05/nanotube in thorough), xyz-loaded, copy-constructed and unpickled molecules, for Molecule and "
         "Structure; plus every sequence of <=3 (quick) / 4 (thorough) operations over a 14-operation alphabet on a 5-atom "
         "seed molecule. Sentinel coordinates/charges per atom. non-trivial = sequence has a deletion and an addition "
-        "after it; distinct by operation-kind string")
+        "after it; distinct by operation-kind string. Second extension: bulk bond calls (append_bonds / extend_bonds / "
+        "repeated append_bond) whose bonds bring one, two or several new atoms (both ends new, a new atom shared by several "
+        "bonds as first and as second end, molecules built from bonds only), deleted / donor-owned atoms and donor-owned bonds "
+        "through the bulk calls, connect_like (source kept or dropped), add_atom with charge=None given explicitly, starts from "
+        "every constructor form (element list, copy_atoms=True, n_atoms=k, concatenate / |) and from CDXML files, index_bond of "
+        "every bond, add_atom of an atom that is already a member (last operation of a history)")
 ASSUMPTIONS = [
     "operations that change the atom count are not issued on Conformer/Substructure views (not defined there); views are "
     "only inspected for alignment",
     "negative integer indices are not generated; with several bonds on one atom pair del_bond may remove any one of them",
     "an atom adopted through append_bond (foreign atom) was given no coordinate: any row / any numeric charge is accepted "
     "for it, after which it must keep them",
+    "atoms adopted by one bulk bond call may be listed in any order after the atoms that were there before",
+    "connect_like(other): afterwards the bonds join the same positions as in other (as a multiset of unordered pairs); bond "
+    "attributes are not compared",
+    "add_atom of an atom that is already a member: a refusal that changes nothing, or any outcome in which the atom is still "
+    "listed once, is accepted",
 ]
+# Behaviours of the UNCHANGED tree that break the property as written (see tools/findings/C05-ext.json). The check counts
+# them instead of reporting them; remove a key once the library is repaired.
+KNOWN_ON_UNCHANGED_TREE = set()      # (its three entries were repaired in the library)
+import os as _os
+if _os.environ.get("VERIF_C05_REPORT_KNOWN"):      # used to confirm that the proposed repairs silence these keys
+    KNOWN_ON_UNCHANGED_TREE = set()
 REQUIRED = {"op.readd_atom": 100, "op.add_atom_bad_row": 30, "op.adopt_owned_atom": 50, "op.append_owned_bond": 10, "op.remove_substituent.by-index": 20, "start.from-library": 5, "op.del_atom": 500, "op.del_atom.by-element": 50, "op.del_atom.by-label": 50, "op.add_atom.no-charge": 100,
             "op.append_bond.foreign": 50, "op.remove_substituent": 50, "op.add_implicit_hydrogens": 50,
-            "inspect": 5000, "op.raised": 50, "view.held-substructure-checked": 500, "op.extend_bonds.generator": 10, "op.del_bond.parallel": 5, "op.connect.stale-or-foreign-atom": 20, "start.unpickled": 5, "start.mol2": 20, "exh.sequences": 1000}
+            "inspect": 5000, "op.raised": 50, "view.held-substructure-checked": 500, "op.extend_bonds.generator": 10, "op.del_bond.parallel": 5, "op.connect.stale-or-foreign-atom": 20, "start.unpickled": 5, "start.mol2": 20, "exh.sequences": 1000,
+            # second extension
+            "op.bulk_new.both-ends-new": 50, "op.bulk_new.centre-as-first-end": 50, "op.bulk_new.centre-as-second-end": 50,
+            "op.bulk_new.chain": 50, "op.bulk_new.chain-reversed": 50, "op.bulk_new.mixed": 50,
+            "op.bulk_new.on-empty-molecule": 10, "op.bulk_new.hooked-to-an-existing-atom": 200,
+            "op.bulk_new.free-fragment": 150, "bonds-with-new-atoms.via-append_bonds": 300,
+            "bonds-with-new-atoms.via-extend_bonds": 300, "op.connect_like": 150, "op.connect_like.no-bonds": 5,
+            "op.connect_like.source-dropped": 80, "op.connect_like.source-kept": 80, "op.add_atom.explicit-none": 250,
+            "op.readd_atom.via-append_bonds": 20, "op.readd_atom.via-extend_bonds": 20,
+            "op.adopt_owned_atom.via-append_bonds": 40, "op.adopt_owned_atom.via-extend_bonds": 40,
+            "op.append_owned_bond.via-append_bonds": 60, "op.append_owned_bond.via-extend_bonds": 60,
+            "start.elements": 15, "start.copy_atoms": 20, "start.n_atoms": 20, "start.concatenate": 20, "start.cdxml": 15,
+            "inspect.index_bond": 100000, "op.add_member_atom": 60}
 CHUNK_TIMEOUT = 900
 TECHNIQUE = "runtime monitoring: identity-keyed edit model stepped beside real Molecule/Structure, invariant at quiescent points"
 LEVEL_TEXT = ("Held on the edit histories produced (random long + bounded-exhaustive short): after every edit the real object "
@@ -60,7 +88,7 @@ def run_chunk(spec, ctx):
 # ------------------------------------------------------------------------------------------------
 
 class Driver:
-    def __init__(self, ctx, mol, case, is_mol):
+    def __init__(self, ctx, mol, case, is_mol, start_label="start"):
         from vmon.models.editmodel import EditModel
 
         self.ctx, self.mol, self.case, self.is_mol = ctx, mol, case, is_mol
@@ -79,9 +107,14 @@ class Driver:
                 self.view = (sub, members)
             except Exception:  # noqa
                 self.view = None
-        self.inspect("start", False)
+        self.exempt = set()    # bonds that showed a KNOWN_ON_UNCHANGED_TREE defect at the start (their parent is not re-read)
+        self._hold = []
+        self.inspect(start_label, False)
 
     def v(self, key, **detail):
+        if key in KNOWN_ON_UNCHANGED_TREE:
+            self.ctx.count("known-on-unchanged-tree:" + key)
+            return "known"
         self.ok = False
         self.ctx.violation(key, case=self.case, ops=self.ops[-8:], cls=type(self.mol).__name__, **detail)
 
@@ -113,7 +146,9 @@ class Driver:
                 return self.v(f"{after}:charges-not-numeric", dtype=str(q.dtype),
                               sample=[repr(x) for x in list(q[-3:])])
         if len({id(a) for a in atoms}) != n:
-            return self.v(f"{after}:atom-listed-twice")
+            if self.v(f"{after}:atom-listed-twice") == "known":
+                self.ok = False      # the object is damaged in a known way: the history ends here, nothing is reported
+            return
         if not raised:
             if [id(a) for a in atoms] != [id(a) for a in mod.atoms]:
                 return self.v(f"{after}:atom-sequence-differs-from-expected", n_got=n, n_want=len(mod.atoms),
@@ -185,8 +220,69 @@ class Driver:
                 par = b.parent
             except Exception as e:  # noqa
                 return self.v(f"{after}:bond-parent-raises:{type(e).__name__}", bond=j)
+            if id(b) in self.exempt:
+                continue
             if par is not m:
-                return self.v(f"{after}:bond-parent-is-not-the-molecule", bond=j, parent=type(par).__name__)
+                if self.v(f"{after}:bond-parent-is-not-the-molecule", bond=j, parent=type(par).__name__) == "known":
+                    self.exempt.add(id(b))
+                    self._hold.append(b)
+                    continue
+                return
+        # every bond reports its position (all bonds of small molecules, an evenly spaced sample of large ones)
+        step = max(1, len(bonds) // 40) if len(bonds) > 150 else 1
+        for j in range(0, len(bonds), step):
+            b = bonds[j]
+            self.ctx.count("inspect.index_bond")
+            try:
+                got = m.index_bond(b)
+            except Exception as e:  # noqa
+                return self.v(f"{after}:index_bond-raises:{type(e).__name__}", bond=j)
+            if got != j:
+                twin = (isinstance(got, int) and 0 <= got < len(bonds) and bonds[got] is not b
+                        and {id(bonds[got].a1), id(bonds[got].a2)} == {id(b.a1), id(b.a2)})
+                if twin:
+                    if self.v("index_bond:parallel-bonds:position-of-the-twin-reported", bond=j, got=got) == "known":
+                        continue
+                    return
+                return self.v(f"{after}:index_bond-wrong", bond=j, got=got if isinstance(got, int) else repr(got)[:40])
+
+    # ---- helpers for bond additions that bring atoms
+    def give(self, bonds, via, rng):
+        """hand bonds to the molecule through one of the three entry points"""
+        m = self.mol
+        self.ctx.count(f"bonds-with-new-atoms.via-{via}")
+        if via == "append_bond":
+            for b in bonds:
+                m.append_bond(b)
+        elif via == "append_bonds":
+            m.append_bonds(*bonds)
+        else:
+            form = rng.choice(["list", "tuple", "generator", "iterator"])
+            self.ctx.count(f"op.extend_bonds.{form}")
+            m.extend_bonds({"list": bonds, "tuple": tuple(bonds), "generator": (b for b in bonds),
+                            "iterator": iter(bonds)}[form])
+
+    def adopted(self, kind, new_atoms, bonds):
+        """after a bond addition: the atoms that were there stay where they were, each new end is listed exactly once (any
+        order among themselves); the model takes over that order, the rows / charges of the new atoms are free"""
+        m, mod = self.mol, self.model
+        atoms = list(m.atoms)
+        n0 = len(mod.atoms)
+        if len({id(a) for a in atoms}) != len(atoms):
+            self.v(f"{kind}:atom-listed-twice", n_atoms=len(atoms), n_before=n0, n_new_ends=len(new_atoms))
+            return False
+        if [id(a) for a in atoms[:n0]] != [id(a) for a in mod.atoms]:
+            self.v(f"{kind}:existing-atoms-changed")
+            return False
+        if sorted(id(a) for a in atoms[n0:]) != sorted(id(a) for a in new_atoms):
+            self.v(f"{kind}:new-bond-ends-not-adopted-exactly-once", n_adopted=len(atoms) - n0, n_new_ends=len(new_atoms))
+            return False
+        for a in atoms[n0:]:
+            mod.add(a, (0, 0, 0), 0.0)
+            self.free.add(id(a))
+        for b in bonds:
+            mod.add_bond(b)
+        return True
 
     # ---- operations
     def do(self, op, rng):
@@ -206,6 +302,14 @@ class Driver:
                 if op[1] == "charge" and self.is_mol:
                     m.add_atom(a, row, q)
                     mod.add(a, row, q)
+                elif op[1].startswith("explicit-none") and self.is_mol:
+                    # "no charge" said explicitly (the documented default value handed through by a wrapper)
+                    ctx.count("op.add_atom.explicit-none")
+                    if op[1] == "explicit-none-pos":
+                        m.add_atom(a, row, None)
+                    else:
+                        m.add_atom(a, coord=row, charge=None)
+                    mod.add(a, row, 0.0)
                 else:
                     ctx.count("op.add_atom.no-charge")
                     m.add_atom(a, row)
@@ -223,11 +327,15 @@ class Driver:
                         m.add_atom(a, row)
                         mod.add(a, row, 0.0)
                 else:
-                    bond = Bond(mod.resolve(op[3]), a)
-                    m.append_bond(bond)
-                    mod.add(a, (0, 0, 0), 0.0)
-                    self.free.add(id(a))
-                    mod.add_bond(bond)
+                    via = op[4] if len(op) > 4 else "append_bond"
+                    bonds = [Bond(mod.resolve(op[3]), a)] if rng.random() < 0.5 else [Bond(a, mod.resolve(op[3]))]
+                    if len(mod.atoms) > 1 and rng.random() < 0.4:
+                        other = mod.atoms[(op[3] + 1) % len(mod.atoms)]
+                        bonds.append(Bond(a, other) if rng.random() < 0.5 else Bond(other, a))
+                    ctx.count(f"op.readd_atom.via-{via}")
+                    self.give(bonds, via, rng)
+                    if not self.adopted(kind, [a], bonds):
+                        return
             elif kind == "add_atom_bad_row":
                 # a row that is not three numbers is refused, and the refusal leaves nothing behind
                 expect_raise = True
@@ -246,18 +354,115 @@ class Driver:
                     m.add_atom(a, row)
                     mod.add(a, row, 0.0)
                 else:
-                    bond = Bond(mod.resolve(op[5]), a)
-                    m.append_bond(bond)
-                    mod.add(a, (0, 0, 0), 0.0)
-                    self.free.add(id(a))
-                    mod.add_bond(bond)
+                    via = op[6] if len(op) > 6 else "append_bond"
+                    bonds = [Bond(mod.resolve(op[5]), a)] if rng.random() < 0.5 else [Bond(a, mod.resolve(op[5]))]
+                    if len(mod.atoms) > 1 and rng.random() < 0.4:
+                        other = mod.atoms[(op[5] + 1) % len(mod.atoms)]
+                        bonds.append(Bond(a, other) if rng.random() < 0.5 else Bond(other, a))
+                    ctx.count(f"op.adopt_owned_atom.via-{via}")
+                    self.give(bonds, via, rng)
+                    if not self.adopted(kind, [a], bonds):
+                        return
             elif kind == "append_owned_bond":
                 # a Bond object that was part of another molecule, re-pointed at two atoms of this one
                 donor, b = op[1], op[2]
                 self._donors = getattr(self, "_donors", []) + [donor]
                 b.a1, b.a2 = mod.resolve(op[3]), mod.resolve(op[4])
-                m.append_bond(b)
-                mod.add_bond(b)
+                via = op[5] if len(op) > 5 else "append_bond"
+                ctx.count(f"op.append_owned_bond.via-{via}")
+                bonds = [b]
+                if via != "append_bond" and rng.random() < 0.5:
+                    # the donor's bond arrives together with a bond that brings a new atom
+                    f = Atom("H", label=f"F{self.k}")
+                    self.k += 1
+                    bonds.insert(rng.randrange(2), Bond(f, b.a1))
+                    self.give(bonds, via, rng)
+                    if not self.adopted(kind, [f], bonds):
+                        return
+                else:
+                    self.give(bonds, via, rng)
+                    mod.add_bond(b)
+            elif kind == "bulk_new":
+                # a fragment given by its bonds: several ends are new to the molecule, a new atom may be shared by
+                # several bonds of the call, as first and as second end
+                shape, via, anchor = op[1], op[2], op[3]
+                ctx.count(f"op.bulk_new.{shape}")
+                ex = mod.resolve(anchor) if anchor is not None else None
+                new = [Atom(rng.choice(["C", "O", "H", "N"]), label=f"F{self.k + i}") for i in range(4)]
+                self.k += 4
+                n1, n2, n3, n4 = new
+                if shape == "both-ends-new":
+                    bonds, used = [Bond(n1, n2)], [n1, n2]
+                elif shape == "centre-as-first-end":
+                    bonds, used = [Bond(n1, n2), Bond(n1, n3), Bond(n1, n4)], new
+                elif shape == "centre-as-second-end":
+                    bonds, used = [Bond(n2, n1), Bond(n3, n1)], [n1, n2, n3]
+                elif shape == "chain":
+                    bonds, used = [Bond(n1, n2), Bond(n2, n3), Bond(n3, n4)], new
+                elif shape == "chain-reversed":
+                    bonds, used = [Bond(n2, n1), Bond(n3, n2), Bond(n4, n3)], new
+                else:   # "mixed": new atom second end first, then first end; an unrelated pair of new atoms in between
+                    bonds, used = [Bond(n1, n2), Bond(n3, n4), Bond(n2, n3)], new
+                if ex is not None:
+                    # hooked to the molecule through one existing atom, at a random place of the call
+                    link = Bond(ex, used[0]) if rng.random() < 0.5 else Bond(used[-1], ex)
+                    bonds.insert(rng.randrange(len(bonds) + 1), link)
+                    ctx.count("op.bulk_new.hooked-to-an-existing-atom")
+                else:
+                    ctx.count("op.bulk_new.free-fragment")
+                if not mod.atoms:
+                    ctx.count("op.bulk_new.on-empty-molecule")
+                if any(any(b.a1 is u for u in used) and any(b.a2 is u for u in used) for b in bonds):
+                    ctx.count("op.bulk_new.bond-with-both-ends-new")
+                self.give(bonds, via, rng)
+                if not self.adopted(kind, used, bonds):
+                    return
+            elif kind == "connect_like":
+                # the bonds of this molecule are replaced by copies of the bonds of another object with the same atoms
+                import gc
+                import molli as ml
+                mode, keep = op[1], op[2]
+                ocls = {"same-class": type(m), "Structure": ml.Structure, "Molecule": ml.Molecule}[op[3]]
+                ctx.count("op.connect_like." + ("has-bonds" if mod.bonds else "no-bonds"))
+                ctx.count("op.connect_like." + ("source-kept" if keep else "source-dropped"))
+                if mode == "copy-edited":
+                    other = ocls(m)
+                else:
+                    other = ocls([a.element for a in mod.atoms])
+                    for i in range(1, len(mod.atoms)):
+                        if rng.random() < 0.7:
+                            other.connect(rng.randrange(i), i)
+                for _ in range(rng.randrange(3)):
+                    if other.n_bonds:
+                        other.del_bond(rng.choice(list(other.bonds)))
+                for _ in range(rng.randrange(3)):
+                    if other.n_atoms >= 2:
+                        i, j = rng.sample(range(other.n_atoms), 2)
+                        other.connect(i, j)
+                oat = list(other.atoms)
+                opos = {id(a): i for i, a in enumerate(oat)}
+                want = sorted(tuple(sorted((opos[id(b.a1)], opos[id(b.a2)]))) for b in other.bonds)
+                m.connect_like(other)
+                pos = {id(a): i for i, a in enumerate(m.atoms)}
+                nb = list(m.bonds)
+                if any(id(b.a1) not in pos or id(b.a2) not in pos for b in nb):
+                    return self.v("connect_like:bond-endpoint-not-in-molecule")
+                got = sorted(tuple(sorted((pos[id(b.a1)], pos[id(b.a2)]))) for b in nb)
+                if got != want:
+                    return self.v("connect_like:bonds-join-other-positions-than-in-the-source", n_got=len(got), n_want=len(want))
+                mod.bonds = [(b, b.a1, b.a2) for b in nb]
+                self._hold.extend(nb)
+                if keep:
+                    self._hold.append(other)
+                else:
+                    del other, oat
+                    gc.collect()
+            elif kind == "add_member_atom":
+                # an atom that is already part of the molecule is "added": refused, or at least never listed twice
+                expect_raise = True
+                row, _ = self.sentinel()
+                m.add_atom(op[1], row)
+                ctx.count("op.add_member_atom.accepted")
             elif kind == "new_atom":
                 row, _ = self.sentinel()
                 a = m.new_atom(rng.choice(["C", "N", "O", "S"]), coord=row, label=f"N{self.k}")
@@ -387,6 +592,12 @@ class Driver:
                 return
             # roll the model back to what the object shows (the failed op must not have changed anything that matters)
             self.free = {i for i in self.free if any(id(a) == i for a in self.mol.atoms)}
+        if kind == "add_member_atom" and raised is None:
+            # accepted: the only thing demanded is that the atom is still listed once and everything stays aligned
+            a = op[1]
+            if sum(1 for x in m.atoms if x is a) == 1:
+                self.free.add(id(a))
+            return self.inspect(kind, True)
         self.inspect(kind if kind != "del_atom" else f"del_atom:by-{op[1]}", raised is not None)
 
 
@@ -398,31 +609,39 @@ def pick_op(rng, d):
     r = rng.random()
     if rng.random() < 0.03:
         return ("add_atom_bad_row", rng.choice([[1.0, 2.0], [1.0, 2.0, 3.0, 4.0], [[1.0, 2.0, 3.0]], [], 5.0]))
-    if n >= 2 and rng.random() < 0.05:
+    vias = ["append_bond", "append_bonds", "extend_bonds", "append_bonds", "extend_bonds"]
+    if rng.random() < (0.06 if n else 0.5):
+        shape = rng.choice(["both-ends-new", "centre-as-first-end", "centre-as-second-end", "chain", "chain-reversed", "mixed"])
+        anchor = rng.randrange(n) if n and rng.random() < 0.6 else None
+        return ("bulk_new", shape, rng.choice(vias), anchor)
+    if n >= 1 and rng.random() < 0.03:
+        return ("connect_like", rng.choice(["copy-edited", "copy-edited", "from-elements"]), rng.random() < 0.5,
+                rng.choice(["same-class", "same-class", "Structure", "Molecule"]))
+    if n >= 2 and rng.random() < 0.08:
         donor = make_donor(rng)
-        if rng.random() < 0.35 and donor.bonds:
+        if rng.random() < 0.4 and donor.bonds:
             b = rng.choice(list(donor.bonds))
             donor.del_bond(b)
             bonded = {frozenset((id(p), id(q))) for _, p, q in mod.bonds}
             for _ in range(6):
                 i, j = rng.sample(range(n), 2)
                 if frozenset((id(mod.atoms[i]), id(mod.atoms[j]))) not in bonded:
-                    return ("append_owned_bond", donor, b, i, j)
+                    return ("append_owned_bond", donor, b, i, j, rng.choice(vias))
         a = rng.choice(list(donor.atoms))
         still = rng.random() < 0.5
         if not still:
             donor.del_atom(a)
         if rng.random() < 0.5:
             return ("adopt_owned_atom", donor, a, still, "add_atom")
-        return ("adopt_owned_atom", donor, a, still, "bond", rng.randrange(n))
+        return ("adopt_owned_atom", donor, a, still, "bond", rng.randrange(n), rng.choice(vias))
     if n == 0 or r < 0.14:
-        return ("add_atom", rng.choice(["charge", "none"]))
+        return ("add_atom", rng.choice(["charge", "none", "explicit-none-pos", "explicit-none-kw"]))
     if r < 0.20:
         gone = [a for a in mod._keep if mod.index(a) < 0]
         if gone and rng.random() < 0.5:
             a = rng.choice(gone)
             if n and rng.random() < 0.5:
-                return ("readd_atom", a, "bond", rng.randrange(n))
+                return ("readd_atom", a, "bond", rng.randrange(n), rng.choice(vias))
             return ("readd_atom", a, "add_atom")
         return ("new_atom",)
     if r < 0.48:
@@ -514,17 +733,63 @@ def make_donor(rng):
     return d
 
 
+m_src_hold = []
+_cdxml_cache = {}
+CDXML_ENTRIES = [("charges_mult_cdxml", k) for k in ("a1", "a2", "a3", "a5", "a6", "a8", "a11")] + \
+                [("parser_demo_cdxml", k) for k in ("benzene", "naphthalene", "stereo", "isotopes", "toluene", "chiral_fragment",
+                                                    "attachments", "taxadiene")]
+
+
 def start_molecule(rng, cls_name, ctx):
     import pickle
     import numpy as np
     import molli as ml
 
     cls = getattr(ml, cls_name)
-    how = rng.choice(["empty", "mol2", "mol2", "mol2", "xyz", "copy", "pickle", "library"])
+    how = rng.choice(["empty", "mol2", "mol2", "mol2", "xyz", "copy", "pickle", "library",
+                      "elements", "copy_atoms", "n_atoms", "concatenate", "cdxml"])
+    if how == "cdxml" and cls_name != "Molecule":
+        how = "copy_atoms"      # a CDXML file yields Molecule objects only
     if ctx.tier == "thorough" and rng.random() < 0.02:
         how = "big"       # 744 / 3215 atoms: every inspection is quadratic in the atom count, so these are rare and short
     if how == "empty":
         m = cls()
+    elif how == "n_atoms":
+        # k placeholder atoms, then coordinates through the public setter
+        k = rng.randrange(1, 9)
+        m = cls(n_atoms=k)
+        m.coords = np.array([[rng.uniform(-9, 9) for _ in range(3)] for _ in range(k)])
+    elif how in ("elements", "copy_atoms", "concatenate"):
+        src = cls.load_mol2(ml.files.ROOT / rng.choice(SEED_FILES))
+        if how == "elements":
+            # element given as symbol, Element or atomic number
+            els = [rng.choice([a.element.symbol, a.element, int(a.element)]) for a in src.atoms]
+            m = cls(els, coords=np.array(src.coords))
+        elif how == "copy_atoms":
+            m = cls(list(src.atoms), copy_atoms=True, coords=np.array(src.coords))
+        else:
+            src2 = cls.load_mol2(ml.files.ROOT / rng.choice(SEED_FILES[2:6]))
+            m = cls.concatenate(src, src2) if rng.random() < 0.6 else cls(src | src2)
+            if rng.random() < 0.5:
+                del src2
+        if how != "concatenate" and rng.random() < 0.6:
+            m.connect_like(src)
+            ctx.count("start.bonds-by-connect_like")
+        if rng.random() < 0.5:
+            del src         # the source object is dropped (weak parent links of anything taken from it die)
+            import gc
+            gc.collect()
+        else:
+            m_src_hold.append(src)
+            del m_src_hold[:-8]
+    elif how == "cdxml":
+        fn, key = rng.choice(CDXML_ENTRIES)
+        if fn not in _cdxml_cache:
+            import warnings
+            with warnings.catch_warnings():
+                warnings.simplefilter("ignore")
+                _cdxml_cache[fn] = ml.CDXMLFile(getattr(ml.files, fn))
+        m = _cdxml_cache[fn][key]
     elif how == "xyz":
         m = cls.load_xyz(ml.files.dendrobine_xyz if rng.random() < 0.5 else ml.files.pentane_confs_xyz)
     elif how == "big":
@@ -567,7 +832,7 @@ def run_random(spec, ctx):
             continue
         rng = ctx.rng(*case)
         m, how = start_molecule(rng, spec["cls"], ctx)
-        d = Driver(ctx, m, case, spec["cls"] == "Molecule")
+        d = Driver(ctx, m, case, spec["cls"] == "Molecule", "start-cdxml" if how == "cdxml" else "start")
         L = rng.randrange(5, 41) if how != "big" else rng.randrange(3, 9)
         kinds = []
         for _ in range(L):
@@ -579,6 +844,10 @@ def run_random(spec, ctx):
         # views are only inspected
         if d.ok and spec["cls"] == "Molecule" and m.n_atoms:
             check_views(ctx, m, case)
+        # last operation of some histories: an atom that is already a member is added again
+        if d.ok and d.model.atoms and rng.random() < 0.25:
+            kinds.append("add_member_atom")
+            d.do(("add_member_atom", rng.choice(d.model.atoms)), rng)
         sig = ",".join(kinds)
         di = next((i for i, k in enumerate(kinds) if k.startswith(("del_atom", "remove_substituent"))), None)
         nt = di is not None and any(k.startswith(("add_atom", "new_atom", "append_bond", "add_implicit")) for k in kinds[di + 1:])
